@@ -382,6 +382,10 @@ class SVEval:
         that returns Option: evaluated case by case instead of as an opaque call"""
         while isinstance(e, dict) and e.get("k") in ("paren", "ref"):
             e = e["expr"]
+        if isinstance(e, dict) and e.get("k") == "call":
+            import srclib as _sl
+            t_ = _sl._NEW_HELPERS.get(expr_text(e["func"]).split("::")[-1])
+            return t_ is not None and re.sub(r"\s+", "", (t_.sig.get("ret") or "")).startswith(("Option<", "std::option::Option<"))
         if not isinstance(e, dict) or e.get("k") != "mcall":
             return False
         m = e["method"]
@@ -463,6 +467,16 @@ class SVEval:
                         outs.append((cs2 + [t + " is Some"], ("opt", v if v is not None else ("opaque", m)), False, env))
                         outs.append((cs2 + [t + " is None"], ("none",), False, env))
                 return outs[:MAX_PATHS] or [([], ("opt", ("opaque", m)), False, env)]
+        if k == "call" and self.is_optionish(e):
+            outs = []
+            for (c, v, r, en) in self.eval(e, o):
+                if v is not None and v[0] in ("opt", "none"):
+                    outs.append((c, v, r, en))
+                elif v == ("var", "None"):
+                    outs.append((c, ("none",), r, en))
+                else:
+                    outs.append((c, ("opt", v if v is not None else ("opaque", "call")), r, en))
+            return outs
         if k == "field" or k == "mcall" or k == "path" or k == "call":
             # an Option we know nothing about: both cases, named after the expression
             t = expr_text(e)
@@ -572,6 +586,26 @@ class SVEval:
             tc = "if-let " + t
             fc = "not(if-let " + t + ")"
         else:
+            from srclib import literal_set_guard
+            g = literal_set_guard(self.S, cond)
+            if g is not None and len(g[1]) <= 32 and re.fullmatch(r"\w+", g[0] or ""):
+                # `if TABLE.contains(&x) { f(x) }`: one path per listed literal with x bound to it (as a match on x would give)
+                t = self.cond_text(cond, env)
+                for l_ in sorted(g[1]):
+                    then_env = dict(env)
+                    then_env[g[0]] = lit(l_)
+                    tc_ = '%s matches "%s"' % (g[0], l_)
+                    for x in self.exec_block(e["then"], [Outcome([], then_env)]):
+                        env_back = self.merge_env(env, x.env, then_env)
+                        env_back[g[0]] = env.get(g[0], ("var", g[0]))
+                        outs.append(([tc_] + x.conds, x.value, x.returned, env_back))
+                fc = "not(" + t + ")"
+                if e.get("else") is not None:
+                    for (c, v, r, en) in self.eval(e["else"], Outcome(o.conds, dict(env))):
+                        outs.append(([fc] + c, v, r, en))
+                else:
+                    outs.append(([fc], None, False, env))
+                return outs[:MAX_PATHS]
             t = self.cond_text(cond, env)
             then_env = dict(env)
             tc = t
